@@ -11,6 +11,26 @@ CHECKS = {
         text='Theorems over the Gallina model of is_not_html/raise_if_not_diffable_html for all texts, headers and options: model = documented table, decision invariant under ASCII case, parameters and padding of the media type, option semantics, side naming. Tables and pattern sources are regenerated from the source on every run and pinned by theorems; the extracted model is run against the implementation on the exhaustive class enumeration.',
         note='Trusted: Coq kernel, gen_tables.py, extraction (ExtrOcamlBasic), harness; Python re semantics of three small patterns (hand-specialised matchers tied by pinned pattern sources, interpreter-generated character classes and exhaustive correspondence); str.lower context-free.',
         design='5/C11'),
+    'C06': dict(
+        technique='Coq proof over the handler/caller model (signature-driven argument binding sound+complete, reserved names bound to fetched content) + extracted-model correspondence over in-process HTTP + service-vs-library observer',
+        text='Theorems over the Gallina model of DiffHandler.get/fetch_diffable_content/caller, for all queries, headers, signatures and all oracles (upstream, files, SHA-256, decoder, differ): a 200 carries the differ result for arguments whose reserved names are bound to the fetched values and whose other names are the query values. The signature table is regenerated from the differ defs on every run; the extracted model is run against the in-process service; an observer compares every HTTP result with the direct library call.',
+        note='Trusted: Coq kernel, gen_tables.py, extraction, harness/httpkit.py (mock upstream, inline executor, spies). Modelled not verified: Tornado request parsing/JSON encoding, asyncio.gather ordering, the differs themselves (oracle run_differ).',
+        design='5/C06'),
+    'C08': dict(
+        technique='Coq proof over the handler model (every effect is a fetch of an http(s) value of a/b or an open of a file:// value outside production; error mapping and shape) + extracted-model correspondence over in-process HTTP',
+        text='Theorems for all requests, modes and oracles: unknown differ 404 / missing URL 400 with no effects; every upstream request is for a value of a or b that starts with http:// or https://; files are opened only for file:// values outside production; upstream failures map to 502/504 unless the reply carries Memento-Datetime; every error response has code = status and no validator. Tied by correspondence of the extracted model with the in-process service over the class cross product.',
+        note='Trusted: Coq kernel, gen_tables.py, extraction, harness/httpkit.py. Modelled not verified: Tornado routing, send_error/clear, JSON encoding; gather ordering when both sides fail (observer accepts either side).',
+        design='5/C08'),
+    'C13': dict(
+        technique='Coq proof over the handler model with SHA-256 uninterpreted (200 implies hash equality for every supplied hash and arguments bound to that content) + extracted-model correspondence + HTTP observer',
+        text='Theorems for all queries/oracles: a 200 implies that for each side whose hash parameter is present (even empty) the fetched body has exactly that hash and the differ receives that body; a mismatch is the 502 HASH_MISMATCH error without diff. Correspondence and observer over hash classes x sides x differs x injections.',
+        note='Trusted: as C06; SHA-256 uninterpreted (harness supplies hashlib digests as the oracle graph).',
+        design='5/C13'),
+    'C18': dict(
+        technique='Coq proof (characterisation of the upstream header map and of the CORS decision, iff statements for all inputs) + extracted-model correspondence over in-process HTTP',
+        text='Theorems: the header map sent upstream contains (k,v) iff k is a trimmed element of pass_headers and v the non-empty client value of k; every upstream request of any diff request carries exactly that map; Access-Control-Allow-Origin is sent iff configured, Origin non-empty and listed (or * listed), echoing exactly the Origin. Correspondence + observer over header sets, pass_headers spellings, origin configurations.',
+        note='Trusted: as C06. Modelled not verified: Tornado HTTPHeaders (ASCII-case-insensitive names, multi-values joined by ",").',
+        design='5/C18'),
 }
 
 NOT_YET = {}
